@@ -608,6 +608,9 @@ class ProxyManager(PoolManager):
                 host, port, scheme, pool_kwargs=pool_kwargs
             )
 
+        if not host:
+            raise LocationValueError("No host specified.")
+
         return super().connection_from_host(
             self.proxy.host, self.proxy.port, self.proxy.scheme, pool_kwargs=pool_kwargs  # type: ignore[union-attr]
         )
